@@ -117,3 +117,76 @@ func (c *Classifier) VerifQ() int             { return c.q }
 func (c *Classifier) VerifThreshold() float64 { return c.threshold }
 func (c *Classifier) VerifDictSize() int      { return len(c.dict.words) }
 func (c *Classifier) VerifWord(id int) string { return c.dict.getWord(tokenID(id)) }
+
+// ---- white-box trace of the matching pipeline (oracle inputs for the model) ----
+
+type VerifDiff struct {
+	Op  int // 0 equal, 1 insert, -1 delete
+	IDs []int
+}
+
+type VerifScoreCall struct {
+	Key        string
+	Start, End int
+	Diffs      []VerifDiff
+	Conf       float64
+	SO, EO     int
+	Slow       bool
+}
+
+type VerifTrace struct {
+	IDs, Lines, Pseudo []int
+	Q                  int
+	Sums               []uint32
+	Calls              []VerifScoreCall
+}
+
+// VerifDocSet returns q and the q-gram checksums of a corpus document.
+func (c *Classifier) VerifDocSet(key string) (int, []uint32) {
+	d := c.docs[key]
+	if d == nil || d.s == nil {
+		return 0, nil
+	}
+	return d.s.q, append([]uint32(nil), d.s.Checksums...)
+}
+
+// VerifTrace tokenises the input as Match does, builds its search set, and for
+// every corpus document records the candidate ranges proposed by
+// findPotentialMatches together with the word diff docDiff computes for each
+// (this is the go-diff oracle of the model). No prefilter is applied here, so
+// the recorded set is a superset of what match needs.
+func (c *Classifier) VerifTrace(in []byte) *VerifTrace {
+	id, _ := tokenizeStream(bytes.NewReader(in), true, c.dict, false)
+	tr := &VerifTrace{}
+	for _, t := range id.Tokens {
+		tr.IDs = append(tr.IDs, int(t.ID))
+		tr.Lines = append(tr.Lines, t.Line)
+	}
+	for _, m := range id.Matches {
+		tr.Pseudo = append(tr.Pseudo, m.StartLine)
+	}
+	id.generateSearchSet(c.q)
+	tr.Q = id.s.q
+	tr.Sums = append([]uint32(nil), id.s.Checksums...)
+	for _, key := range c.VerifDocs() {
+		d := c.docs[key]
+		for _, m := range c.findPotentialMatches(d.s, id.s, c.threshold) {
+			call := VerifScoreCall{Key: key, Start: m.TargetStart, End: m.TargetEnd}
+			t0 := verifNow()
+			diffs := docDiff(key, id, m.TargetStart, m.TargetEnd, d, 0, d.size())
+			call.Slow = verifSince(t0) > 0.4
+			for _, df := range diffs {
+				vd := VerifDiff{Op: int(df.Type)}
+				if df.Text != "" {
+					for _, w := range stringsSplit(df.Text, " ") {
+						vd.IDs = append(vd.IDs, int(c.dict.getIndex(w)))
+					}
+				}
+				call.Diffs = append(call.Diffs, vd)
+			}
+			call.Conf, call.SO, call.EO = c.score(key, id, d, m.TargetStart, m.TargetEnd)
+			tr.Calls = append(tr.Calls, call)
+		}
+	}
+	return tr
+}
